@@ -31,7 +31,7 @@ theorem dn_step (cfg : Cfg) (s s' : State f) (l : Label) (hw : WF s) (hd : DN cf
   obtain ⟨w1, w2, w3, w4, w5, w6⟩ := hw
   obtain ⟨d1, d2, d3⟩ := hd
   clear w4 w5 w6
-  cases l <;> step_inv h
+  cases l <;> rfn_step_inv h
   all_goals (constructor <;> dn_tac)
 
 /-! ### the provider stops only for a cause -/
@@ -51,7 +51,7 @@ theorem sp_init (cfg : Cfg) : SP cfg (init f) := by
 theorem sp_step (cfg : Cfg) (s s' : State f) (l : Label) (hp : SP cfg s)
     (h : step cfg s l = some s') : SP cfg s' := by
   obtain ⟨p1, p2⟩ := hp
-  cases l <;> step_inv h
+  cases l <;> rfn_step_inv h
   all_goals (constructor
              · intro w hw; have := p1 w; cases w <;>
                 simp_all [StopCause, endExec, deqOrder_append, deqOrder] <;> grind
@@ -192,17 +192,17 @@ def Cause (cfg : Cfg) (s : State f) (c : Nat) : Prop :=
 
 theorem stopped_step (cfg : Cfg) (s s' : State f) (l : Label) (h : step cfg s l = some s')
     (hs : s.loop.isStopped = true) : s'.loop.isStopped = true := by
-  cases l <;> step_inv h
+  cases l <;> rfn_step_inv h
   all_goals (simp_all [endExec, Loop.isStopped] <;> grind [Loop.isStopped])
 
 theorem arg_step (cfg : Cfg) (s s' : State f) (l : Label) (h : step cfg s l = some s') (c : Nat) (hlt : c < s.n) :
     s'.arg c = s.arg c ∧ c < s'.n := by
-  cases l <;> step_inv h
+  cases l <;> rfn_step_inv h
   all_goals (simp_all [endExec, upd_apply] <;> grind)
 
 theorem tr_step (cfg : Cfg) (s s' : State f) (l : Label) (h : step cfg s l = some s') :
     ∃ u, s'.tr = s.tr ++ u := by
-  cases l <;> step_inv h
+  cases l <;> rfn_step_inv h
   all_goals (simp [endExec])
 
 theorem cause_step (cfg : Cfg) (s s' : State f) (l : Label) (h : step cfg s l = some s') (c : Nat) (hlt : c < s.n)
@@ -214,10 +214,10 @@ theorem cause_step (cfg : Cfg) (s s' : State f) (l : Label) (h : step cfg s l = 
   · refine Or.inr ⟨hr, ?_⟩
     rcases hc with hc | hc | hc | hc | ⟨r, h1, h2⟩
     · left
-      cases l <;> step_inv h
+      cases l <;> rfn_step_inv h
       all_goals (simp_all [endExec])
     · right; left
-      cases l <;> step_inv h
+      cases l <;> rfn_step_inv h
       all_goals (simp_all [endExec])
     · right; right; left; rw [ha]; exact hc
     · right; right; right; left; rw [ha]; exact hc
@@ -245,14 +245,14 @@ theorem er_step_tx (cfg : Cfg) (s s' : State f) (l : Label) (hw : WF s) (hd : DN
     · right
       have w2 := hw.rch
       clear hw hd hr he
-      cases l <;> step_inv h
+      cases l <;> rfn_step_inv h
       all_goals (simp_all [endExec, upd_apply] <;> grind)
   · have w1 := hw.nch
     have w2 := hw.rch
     have d3 := hd.closed c
     have r3 := hr.rep c
     clear hw hd hr he
-    cases l <;> step_inv h
+    cases l <;> rfn_step_inv h
     all_goals (simp_all [endExec, upd_apply, Cause, BadReply, deliverable, Loop.isStopped, State.closed] <;> grind)
 
 
@@ -267,7 +267,7 @@ theorem er_step_err (cfg : Cfg) (s s' : State f) (l : Label) (hw : WF s) (hd : D
       have d2 := hd.rx c
       have e1 := he.tx c
       clear hw hd he
-      cases l <;> step_inv h
+      cases l <;> rfn_step_inv h
       all_goals (simp_all [endExec, upd_apply] <;> try grind [Cause])
     exact cause_step cfg s s' l h c hc.1 hc.2
 
@@ -324,7 +324,7 @@ theorem frozen_step (cfg : Cfg) (hcan : cfg.cancel = true) (s s' : State f) (l :
   have w1 := hw.nch
   have w2 := hw.rch
   clear hw
-  cases l <;> step_inv h
+  cases l <;> rfn_step_inv h
   all_goals (simp_all [endExec, upd_apply, State.closed, isSeg] <;> grind)
 
 /-- the `closed()` branch is what an executing request takes then -/
